@@ -108,3 +108,18 @@ impl Out
         Ok(())
     }
 }
+
+
+/// Record the input that is about to be fed to code under test which might abort the whole process (allocation
+/// failure, stack overflow): if the harness dies, the check driver reads this file and reports the input as the
+/// failing one. Cleared by `clear_in_flight` after the call returned.
+pub fn in_flight(ctx_dir : &str, suite : &str, what : &str, input : &[u8])
+{
+    let path = format!("{}/{}.inflight", ctx_dir, suite);
+    let _ = std::fs::create_dir_all(ctx_dir);
+    let _ = std::fs::write(&path, format!("{}\n{}\n", what, crate::sexp::hex(input)));
+}
+pub fn clear_in_flight(ctx_dir : &str, suite : &str)
+{
+    let _ = std::fs::remove_file(format!("{}/{}.inflight", ctx_dir, suite));
+}
